@@ -8,6 +8,7 @@ From ClapModel Require Import ParseProofs.Actions ParseProofs.Unparse ParseProof
                               ParseProofs.UnparseSub ParseProofs.UnparseTrail ParseProofs.UnparseTree ParseProofs.UnparseIdx ParseProofs.UnparseIdxTop
                               ParseProofs.UnparseExamples.
 From ClapModel Require Import Base.Utf8 Lex.OsStrExtModel Lex.OsStrExtProofs ParseProofs.UnparseLift.
+From ClapModel Require Import ParseProofs.UnparseX ParseProofs.UnparseXProofs ParseProofs.UnparseXTree ParseProofs.UnparseXExamples.
 From Coq Require Import ZArith Sorting.Sorted Sorting.Permutation List.
 Import ListNotations.
 Open Scope N_scope.
@@ -441,3 +442,150 @@ Theorem C02_osstring_nonvacuous :
     LiftEx.raw_of [102] mm = Some [[[103; 233; 110]]] /\ LiftEx.idx_of_m [102] mm = Some [14].
 Proof. split; [exact LiftEx.ex_os_hyps|exact LiftEx.ex_os_parse]. Qed.
 Print Assumptions C02_osstring_nonvacuous.
+
+(** (3) THE LIFTED CLASS: [require_equals], value terminators, hyphen / negative-number values of options
+    (ParseProofs/UnparseX.v: class; UnparseXProofs.v: token loop; UnparseXTree.v: level, tree, top).
+    Items, rendering and meaning are unchanged; the class [convx]/[wfx_items]/[wfx_inv] allows an argument to
+    have [require_equals] (then it is spelled only [--o=v] / [-o=v], clusters [-abco=v] included), a value
+    terminator (separate values differ from it; the terminator token itself: [C02_terminator_token]), and --
+    options only -- [allow_hyphen_values] (separate values are ANY tokens, [--], [--x], [-x] included) /
+    [allow_negative_numbers] (also [-<number>]); an occurrence with separate values of such an option is
+    complete (otherwise it swallows the next item).  Still outside: [last], [trailing_var_arg], hyphen values
+    of positionals, the values after [--] for this class. *)
+
+(** the old class is contained in the new one (so [C02_unparse_loop] etc. are instances of what follows) *)
+Theorem C02_class_lifted : forall c, conv c = true -> convx c = true /\
+  forall its pst pos, wf_items c pst pos its = true -> wfx_items c pst pos its = true.
+Proof. exact class_lifted. Qed.
+Print Assumptions C02_class_lifted.
+
+Theorem C02_class_lifted_tree : forall i c, wf_inv c i = true -> no_trail i = true -> wfx_inv c i = true.
+Proof. exact wf_inv_wfx_inv. Qed.
+Print Assumptions C02_class_lifted_tree.
+
+(** TOKEN LOOP, lifted class: every token of the rendered items is consumed exactly once, as the part of the item
+    it was rendered from, for every state between two items and ANY rest. *)
+Theorem C02_unparse_loop_x : forall c, convx c = true -> forall its rest pst pos vaf st,
+  wfx_items c pst pos its = true -> pst_okx c pst -> pend_inv c pst st -> fs_skip st = 0 ->
+  parse_loop c (render its ++ rest) (mkL pst pos vaf false) st =
+  (do st' <- apply_items c pos its st;
+   parse_loop c rest (mkL (items_pst c pst pos its) (items_pos c pos its) (vaf || negb (is_nil its)) false) st').
+Proof. exact loop_items_x. Qed.
+Print Assumptions C02_unparse_loop_x.
+
+Theorem C02_unparse_meaning_x : forall c, convx c = true -> forall its pst pos st, wfx_items c pst pos its = true ->
+  (do st' <- apply_items c pos its st; resolve_pending c st') =
+  (do st0 <- resolve_pending c st; react_all c (occs c pos its) st0).
+Proof. exact flush_items_x. Qed.
+Print Assumptions C02_unparse_meaning_x.
+
+(** one separate value of an open occurrence of [a]: a plain value token, ANY token when [a] takes hyphen
+    values, [-<number>] when [a] takes negative numbers -- compared with the terminator, otherwise stored *)
+Theorem C02_value_step_x : forall c, convx c = true -> forall a tok rest pos vaf st, In a (c_args c) ->
+  (a_hyphen a || value_ok tok || (a_negnum a && negnum_tok tok)) = true ->
+  parse_loop c (tok :: rest) (mkL (PSOpt (a_id a)) pos vaf false) st =
+  (if check_terminator a tok then parse_loop c rest (mkL PSValuesDone pos vaf false) st
+   else do y <- Spelling.take_value c (a_id a) tok st;
+        parse_loop c rest (mkL (if snd y then PSOpt (a_id a) else PSValuesDone) pos vaf false) (fst y)).
+Proof. exact value_step_x. Qed.
+Print Assumptions C02_value_step_x.
+
+(** THE TERMINATOR TOKEN is consumed, stores nothing, closes the occurrence *)
+Theorem C02_terminator_token : forall c, convx c = true -> forall a t rest pos vaf st,
+  In a (c_args c) -> a_term a = Some t -> (a_hyphen a || value_ok t || (a_negnum a && negnum_tok t)) = true ->
+  parse_loop c (t :: rest) (mkL (PSOpt (a_id a)) pos vaf false) st =
+  parse_loop c rest (mkL PSValuesDone pos vaf false) st.
+Proof. exact loop_terminator_x. Qed.
+Print Assumptions C02_terminator_token.
+
+(** one level, whole line, with a terminator token in it: [items1 ; items2] denotes the occurrences of
+    [items1 ++ items2] *)
+Theorem C02_unparse_level_terminator : forall c, convx c = true -> forall f its1 its2 a t,
+  is_set s_ignore_errors c = false ->
+  wfx_items c PSValuesDone 1 its1 = true -> items_pst c PSValuesDone 1 its1 = PSOpt (a_id a) ->
+  In a (c_args c) -> a_term a = Some t -> (a_hyphen a || value_ok t || (a_negnum a && negnum_tok t)) = true ->
+  wfx_items c PSValuesDone (items_pos c 1 its1) its2 = true ->
+  get_matches_with (S f) c (render its1 ++ t :: render its2) ps_new =
+  (do st1 <- react_all c (occs c 1 (its1 ++ its2)) ps_new; post_loop c st1).
+Proof. exact gmw_items_term_x. Qed.
+Print Assumptions C02_unparse_level_terminator.
+
+(** ONE LEVEL / TREE / TOP for the lifted class *)
+Theorem C02_unparse_level_x : forall c, convx c = true -> is_set s_ignore_errors c = false ->
+  forall f its, wfx_items c PSValuesDone 1 its = true ->
+  get_matches_with (S f) c (render its) ps_new =
+  (do st1 <- react_all c (occs c 1 its) ps_new; post_loop c st1).
+Proof. exact gmw_items_x. Qed.
+Print Assumptions C02_unparse_level_x.
+
+Theorem C02_unparse_tree_x : forall i c f, valid_tree (S f) c = true -> wfx_inv c i = true ->
+  get_matches_with (S f) c (render_inv i) ps_new = run_inv c i.
+Proof. exact gmw_inv_x. Qed.
+Print Assumptions C02_unparse_tree_x.
+
+Theorem C02_unparse_x : forall c0 bin i, is_set s_no_binary_name c0 = false ->
+  valid (with_bin c0 bin) = true -> wfx_inv (build_self (with_bin c0 bin)) i = true ->
+  parse_top c0 (bin :: render_inv i) =
+  finish_outcome (with_bin c0 bin) (run_inv (build_self (with_bin c0 bin)) i).
+Proof. exact parse_top_inv_x. Qed.
+Print Assumptions C02_unparse_x.
+
+Theorem C02_unparse_denote_x : forall c0 bin i st, is_set s_no_binary_name c0 = false ->
+  valid (with_bin c0 bin) = true -> wfx_inv (build_self (with_bin c0 bin)) i = true ->
+  no_globals (build_recursive (S (S (depth (build_self (with_bin c0 bin))))) (with_bin c0 bin)) = true ->
+  run_inv (build_self (with_bin c0 bin)) i = ROk st ->
+  parse_top c0 (bin :: render_inv i) = OOk (into_inner (mt st)).
+Proof. exact parse_top_denote_x. Qed.
+Print Assumptions C02_unparse_denote_x.
+
+(** CONSERVATION and INDICES at every level of a tree of the lifted class *)
+Theorem C02_conservation_tree_x : forall i c f st, valid_tree (S f) c = true -> wfx_inv c i = true ->
+  get_matches_with (S f) c (render_inv i) ps_new = ROk st ->
+  forall a, In a (c_args c) ->
+    (forall gs, denote_os c (a_id a) (inv_occs c i) = Some gs -> groups_of (a_id a) (mt st) = Some gs)
+    /\ (forall e, fm_get (a_id a) (mt_args (mt st)) = Some e -> m_source e = Some SCmdLine ->
+          denote_os c (a_id a) (inv_occs c i) = Some (m_raw e)).
+Proof. exact conservation_inv_x. Qed.
+Print Assumptions C02_conservation_tree_x.
+
+Theorem C02_indices_tree_x : forall i c f st, valid_tree (S f) c = true -> wfx_inv c i = true ->
+  get_matches_with (S f) c (render_inv i) ps_new = ROk st ->
+  forall a ix, In a (c_args c) -> denote_idx_os c (a_id a) (inv_occs c i) = Some ix ->
+  idx_of (a_id a) (mt st) = Some ix.
+Proof. exact indices_inv_x. Qed.
+Print Assumptions C02_indices_tree_x.
+
+(** Non-vacuity: [prog --req=A -vr=B --term X Y --hy -x -- --num -5 F -t Z --req== -y --num --term run --key=K]
+    ([--req]/[--key]: require_equals; [--term]: terminator [;], 1..3 values; [--hy]: two hyphen values -- here [-x], [--],
+    later [--num], [--term]; [--num]: negative numbers): in the lifted class, not in the old one; parses as denoted. *)
+Theorem C02_unparse_x_nonvacuous :
+  (is_set s_no_binary_name XEx.c0 = false /\ valid (with_bin XEx.c0 XEx.bin) = true /\ wfx_inv XEx.c XEx.xinv = true /\
+   convx XEx.c = true /\ conv XEx.c = false /\
+   no_globals (build_recursive (S (S (depth XEx.c))) (with_bin XEx.c0 XEx.bin)) = true /\
+   render_inv XEx.xinv =
+     [[45; 45; 114; 101; 113; 61; 65]; [45; 118; 114; 61; 66]; [45; 45; 116; 101; 114; 109]; [88]; [89];
+      [45; 45; 104; 121]; [45; 120]; [45; 45]; [45; 45; 110; 117; 109]; [45; 53]; [70]; [45; 116]; [90];
+      [45; 45; 114; 101; 113; 61; 61]; [45; 121]; [45; 45; 110; 117; 109]; [45; 45; 116; 101; 114; 109];
+      [114; 117; 110]; [45; 45; 107; 101; 121; 61; 75]]) /\
+  exists m sm,
+    parse_top XEx.c0 (XEx.bin :: render_inv XEx.xinv) = OOk m /\ ms_sub m = Some ([114; 117; 110], sm) /\
+    XEx.raw_of [114] m = Some [[[61]]] /\ XEx.raw_of [116] m = Some [[[88]; [89]]; [[90]]] /\
+    XEx.raw_of [121] m = Some [[[45; 45; 110; 117; 109]; [45; 45; 116; 101; 114; 109]]] /\
+    XEx.raw_of [110] m = Some [[[45; 53]]] /\ XEx.raw_of [102] m = Some [[[70]]] /\ XEx.raw_of [118] m = Some [[[49]]] /\
+    XEx.raw_of [107] sm = Some [[[75]]] /\
+    XEx.idx_of_m [116] m = Some [7; 8; 16] /\ XEx.idx_of_m [121] m = Some [20; 21] /\ XEx.idx_of_m [110] m = Some [13].
+Proof. split; [exact XEx.ex_hyps|exact XEx.ex_parse]. Qed.
+Print Assumptions C02_unparse_x_nonvacuous.
+
+(** Non-vacuity of the terminator theorems: [prog --term X ; F -v] *)
+Theorem C02_terminator_nonvacuous :
+  (is_set s_ignore_errors XEx.c = false /\ wfx_items XEx.c PSValuesDone 1 XEx.its1 = true /\
+   items_pst XEx.c PSValuesDone 1 XEx.its1 = PSOpt (a_id XEx.tb) /\ In XEx.tb (c_args XEx.c) /\ a_term XEx.tb = Some [59] /\
+   (a_hyphen XEx.tb || value_ok [59] || (a_negnum XEx.tb && negnum_tok [59])) = true /\
+   wfx_items XEx.c PSValuesDone (items_pos XEx.c 1 XEx.its1) XEx.its2 = true /\
+   render XEx.its1 ++ [59] :: render XEx.its2 = [[45; 45; 116; 101; 114; 109]; [88]; [59]; [70]; [45; 118]]) /\
+  exists st, get_matches_with 3 XEx.c (render XEx.its1 ++ [59] :: render XEx.its2) ps_new = ROk st /\
+    groups_of [116] (mt st) = Some [[[88]]] /\ groups_of [102] (mt st) = Some [[[70]]] /\
+    idx_of [116] (mt st) = Some [2] /\ idx_of [102] (mt st) = Some [3].
+Proof. split; [exact XEx.ex_term_hyps|exact XEx.ex_term_parse]. Qed.
+Print Assumptions C02_terminator_nonvacuous.
